@@ -52,10 +52,11 @@ type fnTarget struct {
 	nth         int      // leaf only: which assignment (1 = first; 0 = last)
 	scalarsOnly bool     // whole function: assignments to fields that are no integers / booleans are dropped (named in the doc comment)
 	// results
-	lean  string
-	found bool
-	sig   string // Lean application head for calls from other targets
-	npar  int
+	lean       string
+	found      bool
+	sig        string   // Lean application head for calls from other targets
+	recvFields []fparam // structured receiver: the fields (Go name, Lean type) the definition takes, in order
+	npar       int
 }
 
 var fnTargets = []*fnTarget{
@@ -92,6 +93,10 @@ var fnTargets = []*fnTarget{
 	{fn: "identity.ValidatorStore.GetEndBlockUpdate", name: "feeShare", leaf: "feeShare"},
 	// C19 bounty
 	{fn: "identity.ValidatorStore.ExecuteAllegationTracker", name: "allegBounty", leaf: "bountyAmt", inline: []string{"bountyAmt"}},
+	// C15 vote counting and the two thresholds, whole (the loop becomes a fold)
+	{fn: "data/ethereum.Tracker.GetVotes", name: "trackerGetVotes"},
+	{fn: "data/ethereum.Tracker.Finalized", name: "trackerFinalized"},
+	{fn: "data/ethereum.Tracker.Failed", name: "trackerFailed"},
 	// C17 OLVM gas money
 	{fn: "vm.StateTransition.gasUsed", name: "olvmGasUsed"},
 	{fn: "vm.StateTransition.buyGas", name: "olvmBuyGasCost", leaf: "mgval", inline: []string{"mgval"}},
@@ -534,6 +539,27 @@ func (c *fctx) call(x *ast.CallExpr) (string, string) {
 		}
 		return "(" + t.name + " " + strings.Join(parts, " ") + ")", k
 	}
+	// a method of the SAME receiver that is a target itself: its fields are passed on
+	if t, ok := c.byObj[f]; ok && t.leaf == "" && c.recv != "" {
+		if sel, ok := x.Fun.(*ast.SelectorExpr); ok {
+			if id, ok := sel.X.(*ast.Ident); ok && id.Name == c.recv {
+				var parts []string
+				for _, rf := range t.recvFields {
+					parts = append(parts, c.param(c.recv+"."+rf.name, rf.typ))
+				}
+				for i := range x.Args {
+					a, _ := c.expr(x.Args[i])
+					parts = append(parts, a)
+				}
+				sig := f.Type().(*types.Signature)
+				k := "I"
+				if sig.Results().Len() == 1 {
+					k = kindOf(sig.Results().At(0).Type())
+				}
+				return "(" + t.name + " " + strings.Join(parts, " ") + ")", k
+			}
+		}
+	}
 	// a method without arguments that returns an integer is an opaque reading: a parameter
 	if sig, ok := f.Type().(*types.Signature); ok && sig.Recv() != nil && len(x.Args) == 0 && sig.Results().Len() == 1 && kindOf(sig.Results().At(0).Type()) == "I" {
 		return c.param(strings.TrimSuffix(plain(x), "()"), "Int"), "I"
@@ -747,6 +773,78 @@ func (c *fctx) block(stmts []ast.Stmt, rest func(string) string, ind string) str
 			}
 			return ind + "let (" + strings.Join(names, ", ") + ") := " + v + "\n" + next()
 		}
+	case *ast.RangeStmt:
+		// `for _, item := range xs { … }` over a slice of integers / booleans, the body assigning
+		// to variables of the enclosing function and neither returning nor leaving the loop:
+		// a left fold over the list with the assigned variables as the accumulator
+		if x.Key != nil {
+			if id, ok := x.Key.(*ast.Ident); !ok || id.Name != "_" {
+				c.fail("range with an index variable: " + plain(x.X))
+				return next()
+			}
+		}
+		item, ok := x.Value.(*ast.Ident)
+		sl, isSlice := c.typeOf(x.X).Underlying().(*types.Slice)
+		if !ok || !isSlice {
+			c.fail("unsupported range: " + plain(x.X))
+			return next()
+		}
+		ek := kindOf(sl.Elem())
+		if ek != "I" && ek != "B" {
+			c.fail("range over a slice of unsupported elements: " + plain(x.X))
+			return next()
+		}
+		bad := false
+		var accs []string
+		seenAcc := map[string]bool{}
+		ast.Inspect(x.Body, func(n ast.Node) bool {
+			switch y := n.(type) {
+			case *ast.ReturnStmt, *ast.BranchStmt, *ast.RangeStmt, *ast.ForStmt:
+				bad = true
+			case *ast.AssignStmt:
+				if y.Tok == token.DEFINE {
+					bad = true // locals of the body are not supported (keep the subset small)
+				}
+				for _, l := range y.Lhs {
+					n := c.lhsName(l)
+					if !seenAcc[n] {
+						seenAcc[n] = true
+						accs = append(accs, n)
+					}
+				}
+			case *ast.IncDecStmt:
+				n := c.lhsName(y.X)
+				if !seenAcc[n] {
+					seenAcc[n] = true
+					accs = append(accs, n)
+				}
+			}
+			return true
+		})
+		if bad || len(accs) == 0 {
+			c.fail("unsupported loop body in range over " + plain(x.X))
+			return next()
+		}
+		xs := c.param(plain(x.X), "List "+leanTyp(ek))
+		tuple := accs[0]
+		if len(accs) > 1 {
+			tuple = "(" + strings.Join(accs, ", ") + ")"
+		}
+		itemName := sanitize(item.Name)
+		savedLocals := map[string]bool{}
+		for k, v := range c.locals {
+			savedLocals[k] = v
+		}
+		c.locals[itemName] = true
+		for _, a := range accs {
+			c.locals[a] = true
+		}
+		body := c.block(x.Body.List, func(i string) string { return i + tuple }, ind+"    ")
+		c.locals = savedLocals
+		for _, a := range accs {
+			c.locals[a] = true
+		}
+		return ind + "let " + tuple + " := List.foldl (fun acc " + itemName + " =>\n" + ind + "    let " + tuple + " := acc\n" + body + ") " + tuple + " " + xs + "\n" + next()
 	case *ast.BlockStmt:
 		return c.block(append(append([]ast.Stmt{}, x.List...), stmts[1:]...), rest, ind)
 	case *ast.IfStmt:
@@ -937,18 +1035,57 @@ func (t *fnTarget) translateFn(fd *ast.FuncDecl, pkg *packages.Package, byObj ma
 		} else if st, ok := derefStruct(rt); ok {
 			// a structured receiver: the integer / bool fields the body uses, in declaration order
 			used := map[string]bool{}
+			lenOnly := map[string]bool{}
+			inLen := map[*ast.SelectorExpr]bool{}
+			ranged := map[string]bool{} // slice fields the body ranges over (only those are taken as lists)
 			ast.Inspect(fd.Body, func(n ast.Node) bool {
-				if s, ok := n.(*ast.SelectorExpr); ok {
-					if id, ok := s.X.(*ast.Ident); ok && id.Name == c.recv {
-						used[s.Sel.Name] = true
+				if rs, ok := n.(*ast.RangeStmt); ok {
+					if s, ok := rs.X.(*ast.SelectorExpr); ok {
+						if id, ok := s.X.(*ast.Ident); ok && id.Name == c.recv {
+							ranged[s.Sel.Name] = true
+						}
 					}
 				}
 				return true
 			})
+			ast.Inspect(fd.Body, func(n ast.Node) bool {
+				if call, ok := n.(*ast.CallExpr); ok {
+					if id, ok := call.Fun.(*ast.Ident); ok && id.Name == "len" && len(call.Args) == 1 {
+						if s, ok := call.Args[0].(*ast.SelectorExpr); ok {
+							inLen[s] = true
+						}
+					}
+				}
+				return true
+			})
+			ast.Inspect(fd.Body, func(n ast.Node) bool {
+				if s, ok := n.(*ast.SelectorExpr); ok {
+					if id, ok := s.X.(*ast.Ident); ok && id.Name == c.recv {
+						if !used[s.Sel.Name] {
+							lenOnly[s.Sel.Name] = true
+						}
+						used[s.Sel.Name] = true
+						if !inLen[s] {
+							lenOnly[s.Sel.Name] = false
+						}
+					}
+				}
+				return true
+			})
+			t.recvFields = nil
 			for i := 0; i < st.NumFields(); i++ {
 				f := st.Field(i)
-				if used[f.Name()] && kindOf(f.Type()) != "" && kindOf(f.Type()) != "E" {
-					declared = append(declared, fparam{sanitize(c.recv + "." + f.Name()), leanTyp(kindOf(f.Type()))})
+				lt := ""
+				if k := kindOf(f.Type()); k != "" && k != "E" {
+					lt = leanTyp(k)
+				} else if sl, ok := f.Type().Underlying().(*types.Slice); ok && ranged[f.Name()] {
+					if ek := kindOf(sl.Elem()); ek == "I" || ek == "B" {
+						lt = "List " + leanTyp(ek)
+					}
+				}
+				if used[f.Name()] && lt != "" && !lenOnly[f.Name()] {
+					declared = append(declared, fparam{sanitize(c.recv + "." + f.Name()), lt})
+					t.recvFields = append(t.recvFields, fparam{f.Name(), lt})
 				}
 			}
 		}
